@@ -54,6 +54,7 @@ struct C<'a> {
     pending_rx: Vec<(i64, Vec<u8>)>,
     /// configured servers the stack keeps (DNS_MAX_SERVER_COUNT)
     n_servers: usize,
+    all_servers: Vec<IpAddr>,
 }
 
 impl<'a> C<'a> {
@@ -99,7 +100,7 @@ pub fn run(tape: &mut Tape, props: Props, thorough: bool, trace_on: bool) -> Out
     let sock = dns::Socket::new(&smol_servers, vec![]);
     let h = node.sockets.add(sock);
     let desc = format!("dns dual-stack={} v6={} servers={:?}", dual, v6, servers);
-    let mut c = C { tape, props, node, view, now: 1_000_000, stats: Stats::default(), hash: LogHash::new(), trace: vec![], trace_on, events: 0, v, servers: servers[..1].to_vec(), h, qs: vec![], pending_rx: vec![], n_servers: nserv.min(cfg_value("DNS_MAX_SERVER_COUNT", 1)) };
+    let mut c = C { tape, props, node, view, now: 1_000_000, stats: Stats::default(), hash: LogHash::new(), trace: vec![], trace_on, events: 0, v, servers: servers[..1].to_vec(), h, qs: vec![], pending_rx: vec![], n_servers: nserv.min(cfg_value("DNS_MAX_SERVER_COUNT", 1)), all_servers: servers[..nserv.min(cfg_value("DNS_MAX_SERVER_COUNT", 1))].to_vec() };
     let mut r = body(&mut c, thorough);
     // "no response content can make processing panic or loop" is part of C19 itself
     if let Err(v) = &mut r {
@@ -505,6 +506,20 @@ fn body(c: &mut C, thorough: bool) -> Result<(), Violation> {
         steps += 1;
         if steps > 600 {
             break;
+        }
+        // the application replaces the server list now and then (shorter, longer, empty) while queries are pending
+        if c.tape.draw(40) == 39 {
+            let all = c.all_servers.clone();
+            let k = c.tape.draw(all.len() as u64 + 1) as usize;
+            let subset: Vec<smoltcp::wire::IpAddress> = all.iter().take(k).map(to_smol).collect();
+            let h = c.h;
+            let s = c.node.sockets.get_mut::<dns::Socket>(h);
+            guard("dns::update_servers", || s.update_servers(&subset))?;
+            c.stats.inc("dns.servers-updated");
+            // the fail-over timing clauses speak about an unchanged server list
+            for q in c.qs.iter_mut().filter(|q| !q.done) {
+                q.responses_delivered += 1;
+            }
         }
         let tx_before_poll = c.stats.get("frames.tx");
         poll(c)?;
